@@ -9,11 +9,16 @@ regenerated from the C++ source by `translators/sce_table.py` into `Qx/Generated
 This file is generic in the table: writers, parsers and the decidable well-formedness predicates.
 
 What is modelled: which top-level child elements (tag, namespace, an opaque value token) appear in each
-serialisation mode, and which field each element lands in (or `unknown`) when a part is parsed in a mode.
+serialisation mode, and which field each element lands in (or the unknown extensions) when a part is parsed in a mode.
+Application-supplied unknown extensions (`QXmppStanza::extensions()`, arbitrary elements) are a field too: the
+`catchAll` row — written like any other row, and on parsing whatever no recogniser takes (`PSt.unknown`, replaced by
+every `parse`/`parseExtensions` as `setExtensions(unknownExtensions)` does).
+The classification of a row (routing / hint / id / fallback / payload) is NOT part of the table and not chosen here:
+it is computed by the specification `C17Spec.lean` from the (tag, namespace) pairs the row puts on the wire.
 What is not modelled: attribute/inner content of the elements (value level), elements a foreign sender could
 produce that this writer never produces (duplicates of single-valued fields, unknown tags in the chat-state /
-chat-marker namespaces which the C++ swallows), the stanza `<error/>` and application-supplied unknown extensions
-(written by `toXml` outside every mode guard — see `Qx.Generated.SceTable.errorWritten/unknownExtensionsWritten`).
+chat-marker namespaces which the C++ swallows), and the stanza `<error/>` (written by `toXml` outside every mode
+guard — `Qx.Generated.SceTable.errorWritten`).
 No proofs here; core Lean only.
 -/
 import Qx.Model.C17Spec
